@@ -642,6 +642,11 @@ package lnwallet
 //@   loop * havoc
 //@   site store VerifyJob.HtlcIndex: assert isLocalInitiator == old(chanState.IsInitiator) && chanType == old(chanState.ChanType) &&
 //@        localChanCfg.CsvDelay == old(chanState.LocalChanCfg.CsvDelay) && localChanCfg.DustLimit == old(chanState.LocalChanCfg.DustLimit)
+//@   // taproot channels: the signature type is not on the wire, so a received HTLC signature is marked schnorr before it is parsed -
+//@   // on BOTH branches (the HTLCs we accepted and the HTLCs we offered), and it is the signature at the job's own index
+//@   site call ToSignature nth 0: assert arg(0) == addr(htlcSigs[i]) && (chanType.IsTaproot() ==> called(ForceSchnorr, 0))
+//@   site call ToSignature nth 1: assert arg(0) == addr(htlcSigs[i]) && (chanType.IsTaproot() ==> called(ForceSchnorr, 1))
+//@   site call ForceSchnorr: assert arg(0) == addr(htlcSigs[i])
 //@
 //@ // ---- log compaction evicts an update (and its parent add) only once BOTH commitment chains have
 //@ // ---- irrevocably moved past the height that removed it
